@@ -10,6 +10,16 @@ CLAIMS = {
     text='TLC enumerates every (heap state, action, aliasing choice) transition of the bounded vector machine over three scalar/dtype profiles and checks frame, stale-output independence and returns-target as action properties; a layer-C model of the lincomb decision tree is checked against the reference for every (aliasing, scalar class, regime) cell. Every exported transition is replayed on real ODL elements under concretisations that straddle the 100- and 50000-entry switches, all dtypes, C/F/strided layouts and tensor/discretised/product/nested spaces (NaN-prefilled outputs), and every real call, plus seeded random call sequences on live objects, is validated by TLC against the trace specification.',
     note='Trusted: TLC, the snapping projection (tolerance 2^-20/D vs lattice spacing 1/D), periodic tiling for long vectors (verified on the whole array). Bounded: 3 objects, 2-6 entry abstract vectors, scalar alphabets of 5-6 values per profile. Integer true division outside the claim.',
     ref='4/C01'),
+ 'C03': dict(
+    technique='TLA+ model of the call dispatch (DispatchImpl: Operator.__new__ signature classification + Operator.__call__ checks) refined against the call protocol by TLC, cells replayed on generated toy classes; TLC trace validation (Trace_OpCall) of calls on every operator recipe',
+    text='TLC checks that the transcribed dispatch (4 signature kinds x behaviours of _call x 3 kinds of x x 3 kinds of out x functional) refines the protocol (result in range; in-place returns the very out object holding F(x); bad x -> OpDomainError, bad out -> OpRangeError before anything is written) on all 135 cells and exports them; each cell is replayed on a toy operator class generated with that signature. Then ~1100 recipes (built-in linear and nonlinear operators x options, ufunc operators, functionals with gradients/proximals/conjugates, transforms with both back-ends, ray transform, deformation, ...) are called out-of-place twice, in-place with NaN-filled and garbage-filled out, with uncastable input and with a foreign out; TLC validates every recorded call (range membership, identity of the returned object, byte-identical x, in-place = out-of-place, rejection class, out untouched on rejection). Operator subclasses not reached are listed in the evidence.',
+    note='Trusted: TLC; value equality in-place vs out-of-place is relational (two runs of the same code, tolerance 1e-9 / 1e-4 for float32). Inputs positive so that domain-restricted operators are defined. Coverage of classes is by recipes (159 of 211 Operator subclasses reached; the rest are abstract bases and scalar ufunc functionals, listed as uncovered).',
+    ref='4/C03'),
+ 'C10': dict(
+    technique='TLA+ statement-level models of the proximal _call bodies on an aliased heap (ProxBodiesImpl) checked by TLC; TLC trace validation (Trace_OpCall, mode alias) of P(y, out=y) vs P(x) on every proximal factory x options x spaces and on arithmetic wrappers generated from OpMachine programs',
+    text='TLC checks for all small inputs that the L1, conj-L1, L2-squared and conj-L2-squared (element-valued step) bodies, transcribed statement by statement with the C01 lincomb semantics, leave in x what the plain call returns (switching the model to the pinned tree body yields the ProximalL1 counter-example). On the real code every proximal factory (22 factories x lam x g x scalar/element sigma x rn / rn(120) / weighted / discretised / product spaces), every Functional-API proximal, the building-block operators solvers apply in place (scaling, multiplication, identity, zero, constant) and ~1200 operator-arithmetic wrappers (OpMachine programs whose nonlinear leaves are replaced by proximals) are called as y = x.copy(); P(y, out=y) and compared with P(x); each call is one event validated by TLC.',
+    note='Trusted: TLC; comparison of two real runs (relative tolerance 1e-9). Operators outside the kinds named by the property (finite differences, component projection) are exercised and listed as informational only.',
+    ref='4/C10'),
  'C04': dict(
     technique='TLA+ expression stack machine (OpMachine) with reference semantics OpSem; TLC exhaustive + simulated program export replayed through the real Python overloads; layer-C model of class selection / scalar merging (RewriteImpl) refined against the table; TLC trace validation (Trace_OpMachine)',
     text='A behaviour of OpMachine is a well-typed operator program. TLC enumerates all programs with <= 3 construction steps over 12 leaf kinds and 16 combinators (real, array-weighted real, complex), checks sanity invariants of the reference (structural linearity implies additivity, adjoint identity, stencil derivative) and that the layer-C transcription of the overload rules evaluates to the documented table (it exhibits the pinned tree\'s (A*a)*B defect as a counter-example when the slip is switched on), exports every program with Eval at probe points, domain, range and linearity, plus -simulate behaviours up to 7 steps. Each program is rebuilt from real ODL operators via +,-,*,/,** and evaluated out-of-place and in-place (NaN-prefilled out) on 2 and 120 entries; every real evaluation is re-evaluated by TLC from the logged program.',
